@@ -78,7 +78,14 @@ def run(ctx):
                        'descriptors must be handed to the transport before '
                        'the bytes of their message')
                 if loop is not None:
-                    okit = loop[3] == ('attr', msg, 'oobFDs')
+                    itv = loop[3]
+                    if kind(itv) == 'boolop' and itv[1] == 'or' and \
+                            len(itv[2]) == 2 and itv[2][1] in (
+                                ('tuple', ()), ('list', ())):
+                        itv = itv[2][0]      # `<list> or ()`
+                    okit = itv == ('attr', msg, 'oobFDs') or (
+                        kind(itv) == 'call' and itv[1] == 'getattr' and
+                        itv[3][:2] == (msg, C('oobFDs')))
                     ctx.ob('C20.D1', fi.qualname, 'forward-over-own-list',
                            okit, 'descriptors must be sent in a forward '
                            'iteration of the message\'s own list; iterates '
@@ -92,7 +99,9 @@ def run(ctx):
         has_send = any(ev[0] == 'loop' and any(
             kind(c[2]) == 'attr' and c[2][2] == 'sendFileDescriptor'
             for bp in ev[4] for c in bp.calls()) for ev in p.trace)
-        if not has_send:
+        always_loops = any(
+            ev[0] == 'loop' and kind(ev[3]) == 'boolop' for ev in p.trace)
+        if not has_send and not always_loops:
             fds = ('attr', msg, 'oobFDs')
             ok = fds in p.state.falsy or any(
                 kind(c) == 'call' and c[1] == 'hasattr' and not pol
